@@ -648,6 +648,7 @@ def run(ctx):
                  "`if P is None: P = uniform(..)`, `if isinstance(P, RVT): P = WrapperSampler(P)`, assignments of + - * / expressions over "
                  "literals and names, uniform(loc, scale), the RandomMIRP(...) dataclass call; vocabulary in coq/theories/PyGenerator.v); "
                  "that scipy.stats.uniform(loc, scale) draws inside [loc, loc + scale] and that distinct rvs calls are independent draws")
+    from props import pysem; pysem.run(ctx, pysem.GROUPS_FOR.get(ctx.pid, ()))
     rng = ctx.rng
     quick = ctx.quick
     world = World()
